@@ -75,8 +75,18 @@ int main(int argc, char **argv) {
 #ifdef VERIF_SANITIZER
         __sanitizer_set_death_callback(dumpCurrent);
 #endif
-        for (int s : {SIGSEGV, SIGBUS, SIGABRT, SIGFPE, SIGILL, SIGALRM})
-            signal(s, onSignal);
+        // the handlers run on their own stack: a stack overflow still leaves its note
+        static char altstack[1 << 16];
+        stack_t ss{};
+        ss.ss_sp = altstack;
+        ss.ss_size = sizeof altstack;
+        sigaltstack(&ss, nullptr);
+        for (int s : {SIGSEGV, SIGBUS, SIGABRT, SIGFPE, SIGILL, SIGALRM}) {
+            struct sigaction sa{};
+            sa.sa_handler = onSignal;
+            sa.sa_flags = SA_ONSTACK;
+            sigaction(s, &sa, nullptr);
+        }
     }
     std::ofstream rec;
     if (plan.contains("records"))
